@@ -17,7 +17,10 @@ import functools
 import itertools
 import math
 import os
+import pickle
 import re
+import sys
+import threading
 
 from . import coqlit as L
 from .core import Prop, rp_import, COQ
@@ -105,10 +108,12 @@ def coq_descr(td):
 
 
 def errname(e):
-    return e if e in ('KeyError', 'TypeError', 'ValueError', 'AttributeError') else 'OtherError'
+    return e if e in ('KeyError', 'TypeError', 'ValueError', 'AttributeError', 'SerError') else 'OtherError'
 
 
 def exc_name(e):
+    if type(e).__name__ == 'SerializationError':
+        return 'SerError'
     for t in (KeyError, TypeError, ValueError, AttributeError):
         if isinstance(e, t):
             return t.__name__
@@ -254,6 +259,141 @@ STATEFUL = {
     'object': _mk_object,
 }
 POISON = -99
+
+
+# ------------------------------------------------------------------------------
+# callables of every KIND the property quantifies over ("every picklable function"):
+# shape x scope of the defining class/function x class attribute.
+#   scope  importable : lives in this module (dill and pickle ship a name)
+#          main       : lives in __main__ like in a user script (dill ships it by value)
+#          local      : defined inside a function (only by value is possible)
+#   attr   none | generator | lock | file : a class attribute which (perhaps) cannot be
+#          pickled by value -- then only the by-reference attempt of serialize_obj can work
+#
+_K_SRC = """
+class {name}(object):
+{attr}
+    def __init__(self, factor):
+        self.factor = factor
+
+    def __call__(self, *a, **k):
+        return ['call', self.factor, list(a), sorted(k.items(), key=str)]
+
+    def shifted(self, *a, **k):
+        return ['shifted', self.factor, len(a), sorted(k)]
+"""
+_K_ATTR = {'none': '    pass',
+           'generator': '    _ids = (i for i in range(1000))',
+           'lock': '    _lock = __import__("threading").Lock()',
+           'file': '    _fh = open(__import__("os").devnull)'}
+_KLOCAL = {}
+
+# importable: genuine module-level classes of this module, in every process
+for _attr in _K_ATTR:
+    exec(_K_SRC.format(name='KI_' + _attr, attr=_K_ATTR[_attr]), globals())
+
+
+def _main_ns():
+    """the namespace of the running script: what is defined there is `in __main__` for dill and pickle"""
+    return sys.modules['__main__'].__dict__
+
+
+def _local_class(attr):
+    class KL(object):
+        def __init__(self, factor):
+            self.factor = factor
+
+        def __call__(self, *a, **k):
+            return ['call', self.factor, list(a), sorted(k.items(), key=str)]
+
+        def shifted(self, *a, **k):
+            return ['shifted', self.factor, len(a), sorted(k)]
+    if attr == 'generator':
+        KL._ids = (i for i in range(1000))
+    elif attr == 'lock':
+        KL._lock = threading.Lock()
+    elif attr == 'file':
+        KL._fh = open(os.devnull)
+    return KL
+
+
+def make_class(scope, attr):
+    if scope == 'importable':
+        return globals()['KI_' + attr]
+    if scope == 'main':
+        ns = _main_ns()
+        if 'KM_' + attr not in ns:
+            exec(_K_SRC.format(name='KM_' + attr, attr=_K_ATTR[attr]), ns)
+        return ns['KM_' + attr]
+    if attr not in _KLOCAL:
+        _KLOCAL[attr] = _local_class(attr)
+    return _KLOCAL[attr]
+
+
+def _main_function():
+    ns = _main_ns()
+    if 'fmain' not in ns:
+        exec("def fmain(*a, **k):\n    return ['fmain', list(a), sorted(k.items(), key=str)]\n", ns)
+    return ns['fmain']
+
+
+def _local_function():
+    def flocal(*a, **k):
+        return ['flocal', len(a), sorted(k)]
+    return flocal
+
+
+def _rebound_closure():
+    n = 1
+
+    def late(*a, **k):
+        return ['late', n, list(a), sorted(k)]
+    n = 42                                   # free variable rebound after the def
+    return late
+
+
+def _defaults_function():
+    def dflt(x=3, *a, y=(1, 2), **k):
+        return ['dflt', x, y, list(a), sorted(k)]
+    return dflt
+
+
+SHAPES_FUNC = {
+    ('function', 'importable'): lambda: f_echo,
+    ('function', 'main'): _main_function,
+    ('function', 'local'): _local_function,
+    ('lambda', 'local'): lambda: (lambda *a, **k: ['lambda', list(a), sorted(k)]),
+    ('closure', 'local'): lambda: _closure(7),
+    ('closure_rebound', 'local'): _rebound_closure,
+    ('defaults', 'local'): _defaults_function,
+    ('partial_func', 'importable'): lambda: functools.partial(_scale, 3),
+    ('builtin', 'importable'): lambda: max,
+}
+SHAPES_CLS = ('instance', 'bound', 'partial_inst')
+SCOPES = ('importable', 'main', 'local')
+ATTRS = ('none', 'generator', 'lock', 'file')
+
+
+def build_callable(shape, scope, attr):
+    if (shape, scope) in SHAPES_FUNC:
+        return SHAPES_FUNC[(shape, scope)]()
+    o = make_class(scope, attr)(3)
+    if shape == 'instance':
+        return o
+    if shape == 'bound':
+        return o.shifted
+    if shape == 'partial_inst':
+        return functools.partial(o, 2)
+    raise ValueError(shape)
+
+
+def all_kinds():
+    for (shape, scope) in SHAPES_FUNC:
+        yield shape, scope, 'none'
+    for shape in SHAPES_CLS:
+        for scope in SCOPES:
+            for attr in ATTRS:
+                yield shape, scope, attr
 
 
 # ------------------------------------------------------------------------------
@@ -535,6 +675,23 @@ class C19(Prop):
         for f in FUNCS:
             yield {'kind': 'env', 'func': f, 'via': 'class', 'args': [1, 'a'], 'kwargs': {'p': 2}}
             yield {'kind': 'env', 'func': f, 'via': 'decor', 'args': [1, 'a'], 'kwargs': {'p': 2}}
+        # callables of every kind (shape x scope x class attribute) through both construction paths
+        for shape, scope, attr in all_kinds():
+            args = [5, 2] if shape == 'builtin' else [1, 'a']
+            kw = None if shape == 'builtin' else {'p': 2}
+            for via in ('class', 'decor'):
+                yield {'kind': 'envk', 'shape': shape, 'scope': scope, 'attr': attr, 'via': via,
+                       'args': args, 'kwargs': kw}
+        kinds = list(all_kinds())
+        pool = [0, 1, 2, -3, 'a', 'x y', None, True, 2.5]
+        for _ in range(30 if tier == 'quick' else 1500):
+            shape, scope, attr = rng.choice(kinds)
+            if shape == 'builtin':
+                continue
+            yield {'kind': 'envk', 'shape': shape, 'scope': scope, 'attr': attr, 'via': rng.choice(['class', 'decor']),
+                   'args': [rng.choice(pool) for _ in range(rng.randint(0, 3))],
+                   'kwargs': None if rng.random() < 0.3 else
+                   {k: rng.choice(pool) for k in rng.sample(['p', 'q', 'n'], rng.randint(0, 2))}}
         # every stateful callable through both construction paths: one task after a state change,
         # and several tasks in sequence with the state changing in between
         for name in sorted(STATEFUL):
@@ -780,7 +937,54 @@ class C19(Prop):
                         'same': got == want, 'want': repr(want), 'got': repr(got)})
         return {'steps': out}
 
+    def _run_envk(self, case):
+        """The real serialize_obj / deserialize_obj and the real PythonTask transport on a callable
+        of the given kind; beside it, measured on the same callable: can dill write it by value,
+        by reference, can stdlib pickle round-trip it."""
+        import dill
+        import warnings
+        from radical.pilot.utils.serializer import serialize_obj, deserialize_obj
+        warnings.simplefilter('ignore')
+        rp = self.rp
+        f = build_callable(case['shape'], case['scope'], case['attr'])
+        args, kw = tuple(case['args']), case['kwargs']
+
+        def attempt(fn):
+            try:
+                fn()
+                return True
+            except Exception:
+                return False
+        obs = {'val_ok': attempt(lambda: dill.dumps(f)),
+               'ref_ok': attempt(lambda: dill.dumps(f, byref=True)),
+               'pk_ok': attempt(lambda: callable(pickle.loads(pickle.dumps(f))) or 1 / 0)}
+        want = repr(f(*args, **(kw or {})))
+        try:
+            g = deserialize_obj(serialize_obj(f))
+            obs['ser'] = {'same': bool(callable(g) and repr(g(*args, **(kw or {}))) == want)}
+        except Exception as e:
+            obs['ser'] = {'exc': exc_name(e), 'msg': str(e)[:120]}
+        try:
+            if case['via'] == 'class':
+                w = rp.PythonTask(f, args, copy.deepcopy(kw)) if kw is not None else rp.PythonTask(f, args)
+            else:
+                w = rp.pythontask(f)(*args, **(kw or {}))
+            g, dargs, dkw = rp.PythonTask.get_func_attr(w)
+        except Exception as e:
+            obs['tr'] = {'exc': exc_name(e), 'msg': str(e)[:120]}
+            return obs
+        try:
+            got = repr(g(*dargs, **dkw))
+        except Exception as e:
+            got = 'raises %s' % type(e).__name__
+        obs['tr'] = {'args': [tag_atom(x) for x in dargs],
+                     'kwargs': None if dkw is None else [[k, tag_atom(v)] for k, v in dkw.items()],
+                     'same': bool(callable(g) and got == want), 'want': want, 'got': got}
+        return obs
+
     def run_impl(self, case):
+        if case['kind'] == 'envk':
+            return self._run_envk(case)
         if case['kind'] == 'envseq':
             return self._run_envseq(case)
         if case['kind'] in ('td', 'pd'):
@@ -852,6 +1056,17 @@ class C19(Prop):
                     st.append('(inr %s)' % L.lst([self._coq_slot(x) for x in s]))
             return '(c19_slots_row %s %s %s)' % (L.lst([self.OPS[o] for o in case['ops']]),
                                                  L.lst([self._coq_slot(s) for s in case['slots']]), L.lst(st))
+        if case['kind'] == 'envk':
+            kw = None if case['kwargs'] is None else [[k, tag_atom(v)] for k, v in case['kwargs'].items()]
+            if case['via'] == 'decor' and kw is None:
+                kw = []
+            so = '(inl %s)' % errname(obs['ser']['exc']) if 'exc' in obs['ser'] else '(inr %s)' % L.boolean(obs['ser']['same'])
+            t = obs['tr']
+            o = '(inl %s)' % errname(t['exc']) if 'exc' in t else '(inr (%s, %s, %s))' % (
+                L.lst([coq_atom(a) for a in t['args']]), self._coq_kw(t['kwargs']), L.boolean(t['same']))
+            return '(c19_envk_row %s %s %s true %s %s %s %s)' % (
+                L.boolean(obs['val_ok']), L.boolean(obs['ref_ok']), L.boolean(obs['pk_ok']),
+                L.lst([coq_atom(tag_atom(a)) for a in case['args']]), self._coq_kw(kw), so, o)
         if case['kind'] == 'envseq':
             return '(c19_envseq_row %s %s %s %s)' % (L.boolean(case['via'] == 'decor'), L.Z(case['s0']),
                                                    self._coq_steps(case), self._coq_seq_obs(obs))
@@ -886,6 +1101,10 @@ class C19(Prop):
         return L.lst(out)
 
     def model_show(self, case):
+        if case['kind'] == 'envk':
+            return ('(serialize_id true true, serialize_id false true, serialize_id false false) '
+                    '(* serialize_obj for (by value ok, by reference ok) = (T,T), (F,T), (F,F); the measured pair is '
+                    'in the observation: val_ok, ref_ok *)')
         if case['kind'] == 'envseq':
             return 'transport_seq_id %s %s %s' % (L.boolean(case['via'] == 'decor'), L.Z(case['s0']),
                                                   self._coq_steps(case))
@@ -912,6 +1131,8 @@ class C19(Prop):
 
     # ------------------------------------------------------------------ meta
     def nontrivial(self, case, obs):
+        if case['kind'] == 'envk':
+            return True
         if case['kind'] == 'envseq':
             return True
         if case['kind'] in ('td', 'pd'):
@@ -921,6 +1142,13 @@ class C19(Prop):
         return callable(FUNCS[case['func']])
 
     def signature(self, case, obs, clause):
+        if case['kind'] == 'envk':
+            how = 'by-value' if obs['val_ok'] else 'by-reference-only' if obs['ref_ok'] else \
+                  'pickle-only' if obs['pk_ok'] else 'unpicklable'
+            t = obs['tr']
+            what = 'raises-' + t['exc'] if 'exc' in t else 'result-differs' if not t['same'] else \
+                   'serialize_obj-' + obs['ser'].get('exc', 'differs')
+            return '%s:serialize_obj:%s:%s' % (clause, how, what)
         if case['kind'] == 'envseq':
             cond = 'other'
             for st, o in zip(case['steps'], obs['steps']):
@@ -990,6 +1218,12 @@ class C19(Prop):
         return [i for i, _ in data]
 
     def shrink(self, case):
+        if case['kind'] == 'envk':
+            if case['args']:
+                yield dict(case, args=case['args'][:-1])
+            if case['kwargs']:
+                yield dict(case, kwargs=None)
+            return
         if case['kind'] == 'envseq':
             st = case['steps']
             for i in range(len(st)):
@@ -1036,7 +1270,11 @@ class C19(Prop):
             c = r['case']
             kinds[c['kind']] = kinds.get(c['kind'], 0) + 1
             o = r['obs'] or {}
-            if c['kind'] == 'envseq':
+            if c['kind'] == 'envk':
+                how = 'by-value' if o.get('val_ok') else 'by-reference-only' if o.get('ref_ok') else 'none'
+                k = 'envk:%s:%s' % (how, 'encoded' if 'exc' not in o.get('tr', {}) else o['tr']['exc'])
+                excs[k] = excs.get(k, 0) + 1
+            elif c['kind'] == 'envseq':
                 k = 'envseq:%s:%s:%d steps' % (c['via'], c['func'], len(c['steps']))
                 ops[k] = ops.get(k, 0) + 1
             elif c['kind'] == 'pd':
